@@ -416,6 +416,12 @@ func c01EndpointTable(t *testing.T, rep *vfReport) {
 			}
 			return nil, 0, nil
 		},
+		queryFn: func(qr *command.QueryRequest) ([]*command.QueryRows, uint64, error) {
+			for _, s := range qr.Request.Statements {
+				seen = append(seen, s.Sql)
+			}
+			return nil, 0, nil
+		},
 		requestFn: func(eqr *command.ExecuteQueryRequest) ([]*command.ExecuteQueryResponse, uint64, uint64, error) {
 			for _, s := range eqr.Request.Statements {
 				seen = append(seen, s.Sql)
@@ -438,6 +444,7 @@ func c01EndpointTable(t *testing.T, rep *vfReport) {
 		{"/db/execute?queue", "queued", "/db/execute?queue&wait&noleader&timeout=10s", "application/json", body},
 		{"/db/request", "request", "/db/request", "application/json", body},
 		{"/db/load(sql-text)", "loadtext", "/db/load", "text/plain", text},
+		{"/db/query?level=strong", "querystrong", "/db/query?level=strong", "application/json", `["SELECT random()", "SELECT julianday('now')"]`},
 	} {
 		seen = nil
 		resp, err := http.Post(host+e.path, e.ct, bytes.NewReader([]byte(e.body)))
